@@ -119,13 +119,14 @@ DropKinds == {"oversized", "malformed"}
 \* and resets only completions that leave the command loop normally - not the
 \* NO / BAD produced from an exception, e.g. a failed SELECT or a cancelled
 \* AUTHENTICATE; Conn_badlimit.cfg offers no such input)
+\* (since fix 438b439 the BAD that reaches the limit is preceded by the untagged BYE)
 Reply(r) ==
-  /\ last' = r
   /\ IF BadLimit > 0
      THEN IF r = "BAD"
-          THEN nbad' = nbad + 1 /\ closed' = (nbad + 1 >= BadLimit)
-          ELSE nbad' = 0 /\ closed' = FALSE
-     ELSE nbad' = nbad /\ closed' = FALSE
+          THEN /\ nbad' = nbad + 1 /\ closed' = (nbad + 1 >= BadLimit)
+               /\ last' = IF nbad + 1 >= BadLimit THEN "BYE.BAD" ELSE r
+          ELSE nbad' = 0 /\ closed' = FALSE /\ last' = r
+     ELSE nbad' = nbad /\ closed' = FALSE /\ last' = r
 
 Hangup(r) == last' = r /\ closed' = TRUE /\ nbad' = nbad
 
@@ -311,7 +312,7 @@ Init ==
 (* the model's own consistency: the clauses of C05 / C09, stated           *)
 (* independently of the tables above                                       *)
 
-Results == {"INIT", "OK", "NO", "BAD", "+OK", "+NO", "+BAD", "BYE.OK", "BYE", "NONE"}
+Results == {"INIT", "OK", "NO", "BAD", "+OK", "+NO", "+BAD", "BYE.OK", "BYE.BAD", "BYE", "NONE"}
 
 TypeOK ==
   /\ auth \in Users \cup {None} /\ proof \in Users \cup {None}
@@ -330,7 +331,7 @@ NoProofNoAuth == auth = None => proof = None
 SelSound == sel # NoSel => /\ auth # None /\ sel.m # None /\ sel.mode # None
                            /\ (sel.m = "RO" => sel.mode = "ro")
                            /\ (closed \/ sel.m # "Box" \/ "Box" \in boxes)
-ByeCloses == last \in {"BYE.OK", "BYE", "NONE"} => closed
+ByeCloses == last \in {"BYE.OK", "BYE.BAD", "BYE", "NONE"} => closed
 
 IsRefusal(r) == r \in {"NO", "BAD", "+NO", "+BAD"}
 
